@@ -6,3 +6,4 @@ import LettreVerif.Props.C04
 import LettreVerif.Props.C05
 import LettreVerif.Props.C14
 import LettreVerif.Props.C06
+import LettreVerif.Props.C20
